@@ -231,6 +231,7 @@ def run(ctx):
                     if isinstance(x, ast.Call):
                         cs = cg.site_of(f_cim, x)
                         if cs:
+                            from ..sim import exc_catches
                             for g in cg.targets(cs):
                                 esc.extend(ex.escapes(g))
             ctx.check(ok or not esc, 'C08.2', 'after-dispatch:contained:%s' % type(st).__name__, f_cim.loc(st), 'code after the listener dispatch cannot raise out of ConnectionImpl.message')
